@@ -8,7 +8,7 @@ line-protocol handler for the thread model (C18)
   * `<objects>`: `|`-separated shared point objects `x,y,z,ord,gen,pre` (`ord` = `N` or an integer, `gen` = 0/1,
     `pre` = `E`: `__precompute` is `[]`, `F`: the complete table is already there); object ids are positions
   * `<ops>`: `|`-separated, one operation per thread: `name:self[:other][:k]` with `name` one of
-    `x y scale to_affine double neg eq add mul rmul ne radd getstate maybe_precompute from_affine`
+    `x y scale to_affine double neg eq add mul rmul ne radd getstate maybe_precompute from_affine mul_add`
   * `<schedule>`: comma-separated thread ids (`-` = empty); every entry lets that thread perform its next
     load / store of a shared field
 answer: `ok <heap>;<heap>;… # <result>|<result>|…` — the shared cells after start-up and after every step, then the
@@ -65,6 +65,9 @@ def parseOp (info : Nat → ObjInfo) (t : String) : Option P :=
   | ["radd", s, o] => do let s ← parseNat s; let o ← parseNat o; some (toProg (mRadd info) { self := s, other := o })
   | ["mul", s, k] => do let s ← parseNat s; let k ← parseInt k; some (toProg (mMul info) { self := s, ka := k })
   | ["rmul", s, k] => do let s ← parseNat s; let k ← parseInt k; some (toProg (mRmul info) { self := s, ka := k })
+  | ["mul_add", s, ka, o, kb] => do
+      let s ← parseNat s; let ka ← parseInt ka; let o ← parseNat o; let kb ← parseInt kb
+      some (toProg (mMulAdd info) { self := s, other := o, ka := ka, kb := kb })
   | ["from_affine", o, g] => do
       let o ← parseNat o; let g ← parseInt g; some (toProg (mFromAffine info) { self := o, other := o, ka := g })
   | _ => none
